@@ -404,6 +404,8 @@ def all_bytes_battery(ops_after):
 
 def gen_C15(rng, tier):
     out = all_bytes_battery(["files", "read_all s=U e=U"])
+    # after a torn-tail repair the next appends must again give the canonical bytes
+    out += torn_tail_battery(rng)
     for h0 in _histories(rng, tier, PAYLOADS_SMALL + [16]):
         h = Hist(h0.p, hdr=h0.hdr)
         h.new()
@@ -440,6 +442,58 @@ def gen_C07(rng, tier):
     return out
 
 
+def torn_tail_battery(rng):
+    out = []
+    # torn tails: the rule is relative to the last SURVIVING line, also when several sections were
+    # lost and the index file was not
+    for p in [0, 1, 2, 3, 4, 8]:
+        for sparse in (True, False):
+            h = Hist(p)
+            h.new()
+            t = rng.choice([10, 1000])
+            tss = []
+            for k in range(5):
+                tss.append(t)
+                h.push(t, rng)
+                t += (100000 if sparse else 7) + k
+            if not marker_free(p, h.ts):
+                continue
+            H = header_len(p, 0)
+            h.op("close")
+            h.op("save 0")
+            # byte offsets at which line k ends (canonical layout)
+            ends = []
+            off = 0
+            full = None
+            for x in tss:
+                if full is None or x - full > MAXD:
+                    off += h.ms
+                    full = x
+                off += h.ls
+                ends.append(off)
+            for keep in (1, 2, 3):
+                for extra in (0, 1, h.ls - 1, h.ls + 1):
+                    for ix in (None, "rm index"):
+                        h.op("restore 0")
+                        h.op(f"cut data {H + ends[keep - 1] + extra}")
+                        if ix:
+                            h.op(ix)
+                        h.open()
+                        h.op("range")
+                        h.op("len")
+                        surv = tss[keep - 1]
+                        h.op(f"push ts={surv} pl={hexs(bytes(p))}")            # equal to the survivor: refused
+                        h.op("range")
+                        h.op(f"push ts={surv + 1} pl={hexs(bytes(p))}")        # newer than the survivor, older than what was lost
+                        h.op("range")
+                        h.op(f"push ts={surv + 1} pl={hexs(bytes(p))}")        # now stale
+                        h.op("read_all s=U e=U")
+                        h.op("close")
+                        h.op("files")
+            out.append((f"torn-{'sparse' if sparse else 'dense'}-p{p}", h.script()))
+    return out
+
+
 def gen_C03(rng, tier):
     out = []
     for h0 in _histories(rng, tier, PAYLOADS_SMALL):
@@ -472,6 +526,7 @@ def gen_C03(rng, tier):
                 h.push(h.last(), rng)
                 h.op("files")
         out.append(("refuse", h.script()))
+    out += torn_tail_battery(rng)
     return out
 
 
@@ -797,8 +852,39 @@ def gen_C06(rng, tier):
 
 # ====================================================================== caches
 
-def gen_C08(rng, tier):
+def spread_battery(ops_after):
+    """timestamps spread over the whole u64 range inside ONE bucket: sums of timestamps, and sums of
+    offsets from the first of the bucket, exceed 64 bits for bucket sizes >= 3"""
     out = []
+    cases = [([3], [0, 1 << 63, U64]),
+             ([5], [1, 2, U64 - 2, U64 - 1, U64]),
+             ([3, 5], [7, (1 << 63) + 7, U64 - 9, U64 - 8, U64 - 7, U64 - 1]),
+             ([10], [i * (U64 // 9) for i in range(10)]),
+             ([4, 10], [i * (U64 // 11) + 3 for i in range(12)])]
+    for caches, tss in cases:
+        for p in [0, 4]:
+            if p < 4 and not marker_free(p, tss):
+                continue
+            for attach in ("new", "open"):
+                h = Hist(p, caches=caches if attach == "new" else [])
+                h.new()
+                for t in tss:
+                    h.push(t, pl=bytes([t % 251] * p))
+                if attach == "open":
+                    h.op("close")
+                    h.caches = caches
+                    h.open()
+                for o in ops_after:
+                    h.op(o)
+                h.reopen()
+                for o in ops_after:
+                    h.op(o)
+                out.append((f"spread-{attach}-p{p}-B{caches[0]}", h.script()))
+    return out
+
+
+def gen_C08(rng, tier):
+    out = spread_battery(["files"])
     nh = 12 if tier == "quick" else 100
     Bs = [1, 2, 3, 4, 7, 10, 64]
     for i in range(nh):
@@ -1125,7 +1211,20 @@ def gen_C18(rng, tier):
 
 
 def gen_C19(rng, tier):
-    out = []
+    out = spread_battery(["len", "read_n n=2 s=U e=U", "read_all s=U e=U"])
+    # bucket sizes at the far end of usize
+    for caches in ([U64], [1 << 63], [3, U64], [(1 << 32) + 1]):
+        h = Hist(4, caches=caches)
+        h.new()
+        for t in (5, 6, 100000):
+            h.push(t, rng)
+        for o in ("len", "read_n n=2 s=U e=U", "files"):
+            h.op(o)
+        h.reopen()
+        h.push(200000, rng)
+        for o in ("len", "read_n n=2 s=U e=U", "files"):
+            h.op(o)
+        out.append((f"hugeB-{caches[-1]}", h.script()))
     bounds = ["U", "I:0", "E:0", f"I:{U64}", f"E:{U64}", "I:1", "E:1", f"I:{U64 - 1}"]
     calls = []
     for s in bounds:
